@@ -14,7 +14,7 @@ def spec(tier, seed):
     qs = [Query(name="c17_ku_flags", body="    c17::key_usage_flags();", unwind=20, family="key_usage_flags", config="parse", functions=F, timeout=2400,
                 field_sens=64, shape="every 16-bit x509-parser KeyUsage.flags value: from_u16(flags.reverse_bits()) is exactly the set of named bits, and "
                                      "folding to_u16 over it gives the flags back")]
-    for n in ((4,) if tier == "quick" else (0, 1, 3, 4, 5, 8, 15, 16, 17, 20)):
+    for n in ((4, 16) if tier == "quick" else (0, 1, 3, 4, 5, 8, 15, 16, 17, 20)):
         qs.append(Query(name=f"c17_ip_octets_{n}", body=f"    c17::ip_octets::<{n}>();", unwind=24, family="ip_octets", config="parse", functions=F,
                         timeout=2400, field_sens=64, shape=f"ip_addr_from_octets on {n} arbitrary octets"))
     return {"queries": qs, "mir": run_mir, "exhaustive": False,
